@@ -79,7 +79,7 @@ func mentionsField(name string) func(ssa.Value) bool {
 func C18(c *Ctx) {
 	r := c.R
 	r.Rule("R18.1", "admission filter: in ProcessTransactions a transaction enters the insertion set only across the edges nonce >= pending nonce, (account, nonce) not yet seen in this call, and hash not present in txHashMap.")
-	r.Rule("R18.2", "inclusion guard: in generateBlock every batchedTxs[ptr] = true and every append to the batch lies behind (predecessor (account, nonce-1) is batched) or (nonce == commit nonce); the predecessor lookup uses nonce-1 of the same account.")
+	r.Rule("R18.2", "inclusion guard: in generateBlock every batchedTxs[ptr] = true and every append to the batch lies behind (predecessor (account, nonce-1) is batched) or (nonce == commit nonce); the predecessor lookup uses nonce-1 of the same account; marking and appending are paired both ways - an appended key is marked on every path, and a marked key is appended on every path before the iteration callback returns.")
 	r.Rule("R18.3", "size bound: every append to the batch is followed, before the next append, by the test that stops the iteration when len(batch) reached the batch size, and the batch size is min(configured size, ready count).")
 	r.Rule("R18.4", "sequence numbers: batchSeqNo is written only by the constructor, SetBatchSeqNo and one increment in generateBlock, after which generateBlock cannot return an error (the number is always carried by a returned batch).")
 	r.Rule("R18.5", "promotion: filterReady adds to the ready list only on the edge nonce == demanded nonce and advances the demanded nonce by one on that edge.")
@@ -205,6 +205,58 @@ func C18(c *Ctx) {
 				}
 				r.Check(marked, "R18.2", "generateBlock: appended key is marked as batched", c.P.Pos(ap.Pos()), "batchedTxs[key] = true on every path that appends key to the batch",
 					"a transaction can be appended to the batch without being recorded in batchedTxs (e.g. when the batch becomes full on it): the next batch includes the same (account, nonce) again")
+			}
+
+			// dual pairing: every key marked as batched is appended to the batch before the closure ends or marks again
+			{
+				batchAppends := sites(f, appendsWhere(func(dst ssa.Value) bool { return strings.Contains(dst.Type().String(), "orderedIndexKey") }))
+				appendedKeys := func(ap ssa.Instruction) []ssa.Value {
+					var keys []ssa.Value
+					core.Mentions(ap.(*ssa.Call).Call.Args[1], func(v ssa.Value) bool {
+						if al, ok := v.(*ssa.Alloc); ok {
+							keys = append(keys, core.StoresInto(al)...)
+						}
+						return false
+					})
+					return keys
+				}
+				nm := 0
+				for _, in := range sites(f, func(in ssa.Instruction) bool {
+					mu, ok := in.(*ssa.MapUpdate)
+					return ok && isBatched(mu.Map)
+				}) {
+					mu := in.(*ssa.MapUpdate)
+					isApp := func(x ssa.Instruction) bool {
+						for _, ap := range batchAppends {
+							if ap != x {
+								continue
+							}
+							for _, k := range appendedKeys(ap) {
+								if sameValue(k, mu.Key) {
+									return true
+								}
+							}
+						}
+						return false
+					}
+					if len(batchAppends) == 0 {
+						continue // a helper without the batch slice: pairing judged where the batch is built
+					}
+					nm++
+					isThis := func(x ssa.Instruction) bool { return x == in }
+					ok := len(sites(f, isApp)) > 0 && precedesAll(f, isApp, isThis)
+					if !ok && len(sites(f, isApp)) > 0 {
+						rs := core.Reach([]core.Point{core.After(in)}, isApp, nil)
+						ok = !rs.Has(in)
+						for _, ret := range core.Returns(f) {
+							if rs.Has(ret) {
+								ok = false
+							}
+						}
+					}
+					r.Check(ok, "R18.2", fmt.Sprintf("generateBlock: marked key #%d is appended to the batch", nm), c.P.Pos(in.Pos()), "every path from batchedTxs[key] = true reaches the append of the same key before the callback returns or marks again",
+						"a transaction is recorded in batchedTxs but a path leaves the callback (e.g. the batch-full return) without appending it to the batch: it is in no batch, is skipped by every later generateBlock as already batched, and blocks all higher nonces of its account")
+				}
 			}
 
 			// R18.3: after each append to result, the size test precedes the next append
